@@ -6,6 +6,7 @@ import (
 	"fmt"
 	"sort"
 	"strings"
+	"time"
 
 	el "github.com/hashicorp/eventlogger"
 	"github.com/hashicorp/eventlogger/simrt"
@@ -53,6 +54,7 @@ type fanHarness struct {
 	inBody   int
 	reentry  func(n *recNode, where string) // C12: nodes that call back into the broker
 	closeLog []string
+	stoppedAt time.Time // Broker.StopTimeAt value, if any
 }
 
 func newFanHarness(sim *simrt.Sim) *fanHarness {
@@ -118,6 +120,9 @@ func (n *recNode) Process(ctx context.Context, e *el.Event) (*el.Event, error) {
 			lin = fmt.Sprintf("S%d", p.ID)
 			if e.CreatedAt.IsZero() {
 				h.rootBad = append(h.rootBad, lin+": zero creation time")
+			}
+			if !h.stoppedAt.IsZero() && !e.CreatedAt.Equal(h.stoppedAt) {
+				h.rootBad = append(h.rootBad, fmt.Sprintf("%s: creation time %v, the Broker's clock is stopped at %v", lin, e.CreatedAt, h.stoppedAt))
 			}
 			if len(e.Formatted) != 0 {
 				h.rootBad = append(h.rootBad, lin+": non-empty format table")
@@ -505,3 +510,14 @@ func matchPrefixes(chains [][]expStep, obs map[string]int, cancelled bool) ([]in
 }
 
 var errSentinel = errors.New("sentinel")
+
+// wrapNode wraps a node without offering Close itself: the Broker has to find
+// the inner node's Close through Unwrap (NodeUnwrapper), possibly several levels deep.
+type wrapNode struct{ inner el.Node }
+
+func (w *wrapNode) Process(ctx context.Context, e *el.Event) (*el.Event, error) {
+	return w.inner.Process(ctx, e)
+}
+func (w *wrapNode) Reopen() error     { return w.inner.Reopen() }
+func (w *wrapNode) Type() el.NodeType { return w.inner.Type() }
+func (w *wrapNode) Unwrap() el.Node   { return w.inner }
